@@ -69,7 +69,7 @@ theorem sim_node_ns : ∀ (sn : NSNode) (frames : List (List (Str × Str))), sn.
       HeadOk (b.emitNs (NPNode.encode.encodeList b.env (sn.denote (flatScope frames))).1
         (NPNode.encode.encodeList b.env (sn.denote (flatScope frames))).2 seen idn sp))
   | .elem pfx loc junk attrs openSp kids cpfx cloc closeSp, frames, hw, b, hr, _, hids => by
-    obtain ⟨hwa, hp, hcn, hcl, hadj, hwk⟩ := hw
+    obtain ⟨hwa, hp, hcp, hcn, hadj, hwk⟩ := hw
     simp only [NSNode.denote, encodeNsList_single, NPNode.encode, NPNode.ids.idsList, NPNode.ids, List.append_nil]
       at hids ⊢
     refine ⟨?_, fun _ _ _ _ => headOk_emitNs_single rfl⟩
@@ -79,19 +79,19 @@ theorem sim_node_ns : ∀ (sn : NSNode) (frames : List (List (Str × Str))), sn.
     obtain ⟨hidA, hidK⟩ := hids.split
     obtain ⟨idn0, sp0, hopen⟩ := openElement_ns hr pfx loc attrs hwa hp hidA.1 hidA.2
     simp only [Builder.run, Builder.step, hopen]
-    have hr1 := readyNs_opened hr (((flatScope frames).push (declsOf attrs)).resolve pfx.text) loc.text (declsOf attrs)
+    have hr1 := readyNs_opened hr pfx.text (((flatScope frames).push (declsOf attrs)).resolve pfx.text) loc.text (declsOf attrs)
       (attrsOf ((flatScope frames).push (declsOf attrs)) attrs) idn0 sp0
     obtain ⟨hsim, _⟩ := sim_list_ns kids (declsOf attrs :: frames) hwk hadj _ hr1
-      (fun _ _ _ _ => headOk_openedNs b _ _ _ _ idn0 sp0) hidK
+      (fun _ _ _ _ => headOk_openedNs b _ _ _ _ _ idn0 sp0) hidK
     obtain ⟨idnk, spk, hk⟩ := hsim (.elementEnd (.close cpfx cloc) closeSp :: rest) lexErr
     simp only [flatScope_push] at hk
     rw [hk]
     obtain ⟨u, hu⟩ := Option.isSome_iff_exists.mp hp
     have hres : ((flatScope frames).push (declsOf attrs)).resolve pfx.text = u := by simp [Scope.resolve, hu]
-    obtain ⟨sp, hc⟩ := run_close_ns hr (((flatScope frames).push (declsOf attrs)).resolve pfx.text) loc.text
+    obtain ⟨sp, hc⟩ := run_close_ns hr pfx.text (((flatScope frames).push (declsOf attrs)).resolve pfx.text) loc.text
       (declsOf attrs) (attrsOf ((flatScope frames).push (declsOf attrs)) attrs) idn0 sp0 _ _ _ idnk spk
       (encodeNsList_app (NSNode.denote.denoteList ((flatScope frames).push (declsOf attrs)) kids) _)
-      cpfx cloc closeSp hcn (by rw [hres, hcl]; exact hu) rest lexErr
+      cpfx cloc closeSp hcp hcn (by rw [hres, hcp]; exact hu) rest lexErr
     refine ⟨idnk, sp, ?_⟩
     rw [hc]
     simp only [Builder.openedNs, List.reverse_append, List.append_assoc]
